@@ -4,8 +4,9 @@ from . import attack, hashl, evaluation, draw, rules, targets, succ, castle, top
 WL_ATTACK = ['external_body:axiom_i8_add_assign_ref', 'assume_specification:i8::abs']
 TB_COMMON = [
     'Verus 0.2026.09.13 (rust_verify + vstd + bundled Z3) and rustc 1.98.1',
-    'axiom_i8_add_assign_ref (external_body proof fn): `i8 += &i8` is checked addition (vstd lacks the impl; orphan rule)',
-    'assume_specification[i8::abs]: x != MIN ==> result == |x|',
+    'axiom_i8_add_assign_ref (external_body proof fn): `i8 += &i8` is checked addition (vstd lacks the impl; orphan rule) -- discharged on the real operator by Kani harness axiom_i8_add_assign_ref_holds (C06/C02 quick)',
+    'assume_specification[i8::abs]: x != MIN ==> result == |x| -- discharged by Kani harness axiom_i8_abs_holds',
+    'axiom_boardstate_clone (movegen bundles): derived Clone returns an equal value -- discharged by Kani harness axiom_boardstate_clone_holds on the real derive (C02 quick, others thorough); the link Verus axiom <-> Kani harness is by construction',
     'PartialEqSpecImpl impls for the plain data types: Verus checks the derived eq bodies against them',
     'extraction: items copied byte-for-byte from /repo/src on every run; only insertions of contracts/invariants/proof blocks (vlib/extract.py)',
 ]
@@ -79,6 +80,18 @@ KANI_PRINT = K.make_engine({'board.rs': 'board_text_harness.rs'}, [],
                             {'name': 'c02_promotion_letters', 'timeout': 600, 'what': 'PieceKind::alg prints q n b r for the four promotion kinds'}])
 
 
+def KANI_AXIOMS(clone_tier=None, i8_tier=None):
+    hs = [{'name': 'axiom_i8_add_assign_ref_holds', 'timeout': 600, 'what': 'glue axiom axiom_i8_add_assign_ref discharged on the real `i8 += &i8` over the full i8 x i8 domain'},
+          {'name': 'axiom_i8_abs_holds', 'timeout': 600, 'what': 'glue assumption on i8::abs discharged over the full i8 domain'}]
+    for h in hs:
+        if i8_tier:
+            h['tier'] = i8_tier
+    c = {'name': 'axiom_boardstate_clone_holds', 'timeout': 1800, 'what': 'glue axiom axiom_boardstate_clone discharged on the real derived Clone with all 144 squares and every other field symbolic'}
+    if clone_tier:
+        c['tier'] = clone_tier
+    return {'run': K.make_engine({'board.rs': 'axioms_harness.rs'}, [], hs + [c])}
+
+
 def CROSS(what):
     return {'run': H.make_bounded_engine('cross-check on the unchanged tree: ' + what, 'seeded random: curated + random legal positions, random walks by the oracle', 0, 240), 'tier': 'thorough'}
 
@@ -104,7 +117,7 @@ PROPS = {
     },
     'C01': {
         'verus': [MOVEGEN],
-        'engines': [CROSS("generate_moves(AllMoves) as a set == the oracle's legal moves, also from engine-produced parents")],
+        'engines': [KANI_AXIOMS(clone_tier='thorough', i8_tier='thorough'), CROSS("generate_moves(AllMoves) as a set == the oracle's legal moves, also from engine-produced parents")],
         'whitelist': WL_MOVEGEN, 'trusted_base': TB_COMMON, 'dropped': DROPPED_COMMON,
         'explanation': 'wip', 'assumptions': [], 'not_decided': [],
     },
@@ -116,13 +129,13 @@ PROPS = {
     },
     'C02': {
         'verus': [MOVEGEN],
-        'engines': [{'run': KANI_PRINT}, CROSS('every successor of generate_moves (both modes, chains of depth 2) == oracle apply(move); printed text == move')],
+        'engines': [KANI_AXIOMS(), {'run': KANI_PRINT}, CROSS('every successor of generate_moves (both modes, chains of depth 2) == oracle apply(move); printed text == move')],
         'whitelist': WL_MOVEGEN, 'trusted_base': TB_COMMON, 'dropped': DROPPED_COMMON,
         'explanation': 'wip', 'assumptions': [], 'not_decided': [],
     },
     'C13': {
         'verus': [MOVEGEN],
-        'engines': [CROSS('generate_moves(CapturesOnly) == oracle legal captures; capture chains of depth 2')],
+        'engines': [KANI_AXIOMS(clone_tier='thorough', i8_tier='thorough'), CROSS('generate_moves(CapturesOnly) == oracle legal captures; capture chains of depth 2')],
         'whitelist': WL_MOVEGEN, 'trusted_base': TB_COMMON, 'dropped': DROPPED_COMMON,
         'explanation': 'wip', 'assumptions': [], 'not_decided': [],
     },
@@ -148,7 +161,7 @@ PROPS = {
     },
     'C05': {
         'verus': [{'name': 'hash', 'build': b_hash, 'rlimit': 30}, MOVEGEN, dict(UCI, units_filter=lambda u: u in ('make_move', 'Square::from'))],
-        'engines': [{'run': H.make_bounded_engine('routes: every successor of generate_moves (both modes, also from engine-produced parents) and every make_move result has key == from-scratch key; from_fen of oracle-generated FENs gives the from-scratch key', 'seeded random: curated + random legal positions and random walks', 12, 240)}],
+        'engines': [KANI_AXIOMS(clone_tier='thorough', i8_tier='thorough'), {'run': H.make_bounded_engine('routes: every successor of generate_moves (both modes, also from engine-produced parents) and every make_move result has key == from-scratch key; from_fen of oracle-generated FENs gives the from-scratch key', 'seeded random: curated + random legal positions and random walks', 12, 240)}],
         'whitelist': WL_UCI,
         'trusted_base': TB_COMMON,
         'dropped': DROPPED_COMMON,
@@ -158,7 +171,7 @@ PROPS = {
     },
     'C06': {
         'verus': [{'name': 'attack', 'build': b_attack, 'rlimit': 30}],
-        'engines': [CROSS('is_check == oracle attack test on arbitrary placements with one king per side')],
+        'engines': [KANI_AXIOMS(clone_tier='thorough'), CROSS('is_check == oracle attack test on arbitrary placements with one king per side')],
         'whitelist': WL_ATTACK,
         'trusted_base': TB_COMMON,
         'dropped': DROPPED_COMMON,
